@@ -152,8 +152,10 @@ def _MIST18_WD_predictor(FeH):
     #   really it won't matter, maximum will always be far above 1
     restr = (1. < WD_minmax) & (WD_minmax <= WD_m_max)
 
-    # Determine the maximum WD final mass (including upper bound in case)
-    WD_max = WD_spline(np.r_[WD_minmax[restr], WD_m_max]).max()
+    # Determine the maximum WD final mass (including upper bound in case).
+    # Padded slightly: evaluating the (strongly cancelling) polynomial next to
+    # its maximum can exceed the value found at the root itself by round-off
+    WD_max = WD_spline(np.r_[WD_minmax[restr], WD_m_max]).max() * (1 + 1e-9)
 
     WD_mf = bounds(0.0, WD_max)
 
